@@ -408,8 +408,19 @@ func (ex *Explorer) runPath(h *HarnessSpec, solver *Solver, prefix []decision, w
 	out.inconcl = append(out.inconcl, ctx.inconcl...)
 	if ctx.endReason == "return" && len(ctx.violations) > 0 {
 		ctx.endReason = "return after violated assertions"
+		onlyKnown := true
+		for _, v := range ctx.violations {
+			if v.Outside || len(v.Known) == 0 {
+				onlyKnown = false
+			}
+		}
+		if onlyKnown {
+			// every failed assertion lies inside an active known-finding class: the path
+			// is still a faithful prediction of the real code's behaviour and can be validated
+			ctx.endReason = "return with known findings only"
+		}
 	}
-	if wantSample && (ctx.endReason == "return" || strings.HasPrefix(ctx.endReason, "assertion")) {
+	if wantSample && (strings.HasPrefix(ctx.endReason, "return") || strings.HasPrefix(ctx.endReason, "assertion")) {
 		terms := ctx.modelTerms()
 		var evTerms []*Term
 		for _, e := range ctx.events {
@@ -427,6 +438,8 @@ func (ex *Explorer) runPath(h *HarnessSpec, solver *Solver, prefix []decision, w
 				s.Events = append(s.Events, renderEvent(e, m))
 			}
 			out.sample = s
+		} else if ex.Verbose {
+			fmt.Fprintf(os.Stderr, "sample: model query for a completed path answered %v (%d terms)\n", r, len(terms)+len(evTerms))
 		}
 	}
 	return out
